@@ -327,6 +327,22 @@ def specials():
     for n in (1, 2, 3):
         out.append(("hdd", f"snapshot-parent-cycle-{n}", hdd_cycle(n), 4, 8))
 
+    def vmdk_chain_missing_base(n):
+        def run(work):
+            # a chain of n delta descriptors whose base is gone: the failure travels up through every level
+            from pathlib import Path
+            from dissect.hypervisor.disk.vmdk import VMDK
+            d = tempfile.mkdtemp(prefix="chain-", dir=work)
+            for k in range(n):
+                vf, _ = enc_vmdk.build_hosted([("U", 0)], [True], capacity=8, grain=8, gtes=4, file_id=k)
+                vf.materialise(os.path.join(d, f"l{k}-s001.vmdk"))
+                with open(os.path.join(d, f"l{k}.vmdk"), "w") as f:
+                    f.write(enc_vmdk.descriptor_text([f'RW 8 SPARSE "l{k}-s001.vmdk"'], parent_cid="1234abcd", parent_hint=f'C:\\vm "dir"\\l{k + 1}.vmdk'))
+            return lambda: VMDK(Path(d) / "l0.vmdk").read(4096)
+        return run
+
+    out.append(("vmdk-descriptor", "chain-of-30-deltas-missing-base", vmdk_chain_missing_base(30), 20, 16))
+
     def hyperv_selfref(mode):
         def run(work):
             nodes = [{"id": 1, "parent": 0, "tbl": 1, "key": "k", "type": enc_hyperv.T_INT, "value": 1}]
